@@ -59,7 +59,24 @@ def sameIndex (st : Store) (sn : Snap) : Option String :=
       let want := match ents.find? (fun e => e.1 == i) with | some e => e.2 | none => 0
       if st b i = want then none else some s!"index block {b} slot {i}: model {st b i}, file {want}"
 
-def step (d : St) (line : String) : St × Option String :=
+/-- every block the file points to (its own pointers and the entries of its index blocks) -/
+def ownedOf (sn : Snap) : List Nat :=
+  (sn.blks ++ sn.ind.flatMap fun x => x.2.map (·.2)).filter (· ≠ 0)
+
+/-- the hypotheses of `bmap_ok` (Lemmas/BlockTree: `WFB`), observed on the real file and the real
+    allocator: no block is pointed to twice, and what the allocator hands out is pairwise distinct
+    and in use nowhere in the file.  (That a block handed out is all zeros is observed by the
+    comparison of the index blocks afterwards.) -/
+def hypothesesHold (sn : Snap) (allocs : List Nat) : Option String :=
+  let owned := ownedOf sn
+  let al := allocs.filter (· ≠ 0)
+  if !owned.Nodup then some s!"a block is pointed to twice in the file: {owned}"
+  else if !al.Nodup then some s!"the allocator handed out a block twice: {allocs}"
+  else match al.find? (fun a => owned.contains a) with
+    | some a => some s!"the allocator handed out block {a}, which the file already points to"
+    | none => none
+
+def stepCore (d : St) (line : String) : St × Option String :=
   match words line with
   | "config" :: _ => (d, none)
   | "bm" :: "case" :: _ => ({}, none)
@@ -110,6 +127,15 @@ def step (d : St) (line : String) : St × Option String :=
       ({}, r)
     | _, _ => (d, some "bad after line")
   | _ => (d, some "unknown line")
+
+def step (d : St) (line : String) : St × Option String :=
+  let r := stepCore d line
+  match r.2, words line with
+  | none, "bm" :: "op" :: rest =>
+    match d.before, rest.getLast?.bind parseNats with
+    | some b, some al => (r.1, (hypothesesHold b al).map fun m => s!"hypothesis of bmap_ok not met: {m}")
+    | _, _ => r
+  | _, _ => r
 
 def main : IO UInt32 := runLines ({} : St) step
 
